@@ -796,7 +796,19 @@ func (fc *FnCtx) verify() {
 		}
 		fc.watchVal(v)
 	}
+	for _, a := range args {
+		fc.assumeStructInv(st, a)
+	}
 	vars := bindParams(con, fn, args)
+	// closures verified standalone: captured variables are arbitrary and can be named in the contract
+	for _, fv := range fn.FreeVars {
+		v := fc.value(fr, st, fv)
+		if v.K == KAddr && v.A.Kind == ACell {
+			vars[fv.Name()] = st.cells[v.A.Cell]
+		} else {
+			vars[fv.Name()] = v
+		}
+	}
 	fc.params = vars
 	fc.replayPlan(st, fn, args)
 	if con != nil {
@@ -817,6 +829,7 @@ func (fc *FnCtx) verify() {
 	fc.oldSt = st.clone()
 	pre := fc.oldSt
 	res, retReach := fc.execBody(fr, st, "true")
+	fc.checkStructInvEstablished(fr, st, res, retReach)
 	if con == nil {
 		return
 	}
@@ -1076,4 +1089,67 @@ func (fc *FnCtx) ghostAssignTargets(env *SpecEnv, sp Spec) {
 		}
 	}
 	walk(sp)
+}
+
+// assumeStructInv: facts about constructor-only fields hold for every object
+// that was not allocated by the current function.
+func (fc *FnCtx) assumeStructInv(st *State, v Val) {
+	if v.K != KAddr || v.A.Kind != AObj || len(v.A.Path) != 0 || fc.freshObj[v.A.Base] {
+		return
+	}
+	for _, si := range fc.eng.structInvs {
+		if !types.Identical(v.A.T, si.rootType) {
+			continue
+		}
+		key := si.TypeName + "@" + v.A.Base + "@" + si.Clause.Text
+		if fc.structAssumed[key] {
+			continue
+		}
+		fc.structAssumed[key] = true
+		for _, f := range si.Established {
+			if fc.fn.Name() == f || (fc.fn.Parent() != nil && fc.fn.Parent().Name() == f) {
+				return // still under construction here
+			}
+		}
+		fc.assumption("structinv: constructor-only fields of " + si.TypeName + " (checked: written only in " + strings.Join(si.Established, ", ") + "; proved at their exit)")
+		fc.quiet++
+		env := fc.specEnv(st, nil, map[string]Val{si.Self: v}, si.Pkg, nil, "structinv "+si.TypeName)
+		t := env.evalBool(si.Clause.Expr)
+		fc.quiet--
+		fc.sc.assume(tImp(tNot(tEq(v.A.Base, "0")), t))
+	}
+}
+
+// checkStructInvEstablished: an establishing function that returns a *T must
+// return it with the struct invariant holding.
+func (fc *FnCtx) checkStructInvEstablished(fr *Frame, st *State, res Val, reach string) {
+	if fr.parent != nil || fc.fn.Parent() != nil {
+		return
+	}
+	var rs []Val
+	if res.K == KTuple {
+		rs = res.Fs
+	} else {
+		rs = []Val{res}
+	}
+	for _, si := range fc.eng.structInvs {
+		est := false
+		for _, f := range si.Established {
+			if fc.fn.Name() == f && fc.fn.Pkg != nil && fc.fn.Pkg.Pkg == si.Pkg {
+				est = true
+			}
+		}
+		if !est {
+			continue
+		}
+		for _, r := range rs {
+			if r.K == KAddr && r.A.Kind == AObj && types.Identical(r.A.T, si.rootType) {
+				env := fc.specEnv(st, nil, map[string]Val{si.Self: r}, si.Pkg, nil, "structinv "+si.TypeName)
+				for _, part := range splitConj(si.Clause.Expr) {
+					t := env.evalBool(part)
+					fc.oblige(fr, "structinv", si.TypeName+" established: "+si.Clause.Text, reach, tImp(tNot(tEq(r.A.Base, "0")), t), env.quant, nil)
+				}
+			}
+		}
+	}
 }
